@@ -370,3 +370,12 @@ def chain_orientation(ctx):
     element only if both are the head of the chain (C04.orientation)."""
     from . import c04
     c04.orientation(ctx)
+
+
+@rule('C06', 'disable-hits-the-named-attribute')
+def disable_hits_the_named_attribute(ctx):
+    """disable_attribute(SEC::MID) must disable SEC::MID: the name is resolved through the ordered dictionary of the dimension,
+    whose hidden index map every removal keeps consistent (C03.dict-remove-shifts) — with a stale index the call succeeds,
+    marks the neighbouring attribute decrypt-only and leaves the named one encryptable."""
+    from . import c03
+    c03.dict_remove_shifts(ctx)
